@@ -1,184 +1,188 @@
-(* C09_planets: the whole-body theorems of C09_pl_<Planet>.v with their side conditions
-   (|aberration terms| < 60 arcsec, cos beta <> 0) discharged from natural hypotheses
-   (|T| <= 40 centuries, |beta| <= 25 deg, |B| <= 25 deg) and JDE2000 = 2451545 proved. *)
+(* C09_planets: the whole-body theorems of C09_pl_<Planet>.v with
+   - their side conditions (|aberration terms| < 60 arcsec, cos beta <> 0) discharged from natural
+     hypotheses (|T| <= 40 centuries, |beta| <= 25 deg, |B| <= 25 deg),
+   - JDE2000 = 2451545 proved (C09_J_jde),
+   - the ecliptical2equatorial hypothesis discharged with its closed form (C05's ecl2eq_closed, copied
+     as C09_E_ecl): RA/Dec are RAG/DECG of C09_body, the rotation of (LAMG, BETG) by the obliquity. *)
 From Coq Require Import Reals ZArith List Bool Lra Lia String.
-From PyLib Require Import PyVal PyBuiltins Ideal.
+From PyLib Require Import PyVal PyBuiltins Ideal Sphere.
 From Gen Require Import M_base M_Angle M_Epoch M_Coordinates M_Earth M_Sun.
 From Gen Require Import M_Mercury M_Venus M_Mars M_Jupiter M_Saturn M_Uranus M_Neptune.
 From Proofs.C09 Require Import C09_A_defs C09_spec C09_geo C09_body C09_J_tac C09_J_jde.
+From Proofs.C09 Require C09_E_angle C09_E_run C09_E_ecl.
 From Proofs.C09 Require Import C09_pl_Mercury C09_pl_Venus C09_pl_Mars C09_pl_Jupiter C09_pl_Saturn C09_pl_Uranus C09_pl_Neptune.
 Import ListNotations.
 Open Scope R_scope.
 
-Lemma planet_full_Mercury (pl pb pr el eb er nut obl sl sb sr : R -> R) (era edec : R -> R -> R -> R) (j j1 : R) :
-  (forall j, Mercury_geometric_heliocentric_position Rops (ep j) (VBool false) = VTuple [ang (pl j); ang (pb j); VFloat (pr j)]) ->
-  (forall j, Earth_geometric_heliocentric_position Rops (ep j) (VBool false) = VTuple [ang (el j); ang (eb j); VFloat (er j)]) ->
-  Epoch___isub__ Rops (ep j) (VFloat (tau_of (pl j) (pb j) (pr j) (el j) (eb j) (er j))) = ep j1 ->
-  (forall j, f_nutation_longitude Rops (VTuple [ep j]) (VDict []) = ang (nut j)) ->
-  (forall j, f_true_obliquity Rops (VTuple [ep j]) (VDict []) = ang (obl j)) ->
-  (forall j, Sun_apparent_geocentric_position Rops (ep j) (VBool true) = VTuple [ang (sl j); ang (sb j); VFloat (sr j)]) ->
-  (forall a b e, f_ecliptical2equatorial Rops (ang a) (ang b) (ang e) = VTuple [ang (era a b e); ang (edec a b e)]) ->
+Lemma planet_full_Mercury (lA bA rA l b r l0 b0 r0 nut1 obl1 sl1 sb1 sr1 j j1 : R) :
+  Mercury_geometric_heliocentric_position Rops (ep j) (VBool false) = VTuple [ang lA; ang bA; VFloat rA] ->
+  Mercury_geometric_heliocentric_position Rops (ep j1) (VBool false) = VTuple [ang l; ang b; VFloat r] ->
+  Earth_geometric_heliocentric_position Rops (ep j) (VBool false) = VTuple [ang l0; ang b0; VFloat r0] ->
+  Epoch___isub__ Rops (ep j) (VFloat (tau_of lA bA rA l0 b0 r0)) = ep j1 ->
+  f_nutation_longitude Rops (VTuple [ep j1]) (VDict []) = ang nut1 ->
+  f_true_obliquity Rops (VTuple [ep j1]) (VDict []) = ang obl1 ->
+  Sun_apparent_geocentric_position Rops (ep j1) (VBool true) = VTuple [ang sl1; ang sb1; VFloat sr1] ->
   -40 <= tcen j1 <= 40 ->
-  Rabs (betG (pl j1) (pb j1) (pr j1) (el j) (eb j) (er j)) <= 25 * (PI / 180) ->
-  Rabs (pb j1 * (PI / 180)) <= 25 * (PI / 180) ->
+  Rabs (betG l b r l0 b0 r0) <= 25 * (PI / 180) ->
+  Rabs (b * (PI / 180)) <= 25 * (PI / 180) ->
   Mercury_geocentric_position Rops (ep j) =
-  VTuple [ang (era (LAMG (pl j1) (pb j1) (pr j1) (el j) (eb j) (er j) j1 (nut j1)) (BETG (pl j1) (pb j1) (pr j1) (el j) (eb j) (er j) j1) (obl j1));
-          ang (edec (LAMG (pl j1) (pb j1) (pr j1) (el j) (eb j) (er j) j1 (nut j1)) (BETG (pl j1) (pb j1) (pr j1) (el j) (eb j) (er j) j1) (obl j1));
-          ang (ELONG (pl j1) (pb j1) (pr j1) (el j) (eb j) (er j) j1 (nut j1) (sl j1))].
+  VTuple [ang (RAG l b r l0 b0 r0 j1 nut1 obl1); ang (DECG l b r l0 b0 r0 j1 nut1 obl1);
+          ang (ELONG l b r l0 b0 r0 j1 nut1 sl1)].
 Proof.
-  intros HP HE Hi Hn Ho Hs He Ht Hb HB.
-  apply (body_Mercury pl pb pr el eb er nut obl sl sb sr era edec j j1); try assumption.
+  intros HPa HPb HE Hi Hn Ho Hs Ht Hb HB.
+  apply (body_Mercury lA bA rA l b r l0 b0 r0 nut1 obl1 sl1 sb1 sr1 _ _ j j1); try assumption.
   - exact JDE2000_val.
+  - exact (C09_E_ecl.ecl2eq_closed _ _ _).
   - apply dl1G_small; assumption.
   - apply db1G_small; assumption.
   - apply dl2aG_small; assumption.
   - apply cosbet_nz; assumption.
 Qed.
 
-Lemma planet_full_Venus (pl pb pr el eb er nut obl sl sb sr : R -> R) (era edec : R -> R -> R -> R) (j j1 : R) :
-  (forall j, Venus_geometric_heliocentric_position Rops (ep j) (VBool false) = VTuple [ang (pl j); ang (pb j); VFloat (pr j)]) ->
-  (forall j, Earth_geometric_heliocentric_position Rops (ep j) (VBool false) = VTuple [ang (el j); ang (eb j); VFloat (er j)]) ->
-  Epoch___isub__ Rops (ep j) (VFloat (tau_of (pl j) (pb j) (pr j) (el j) (eb j) (er j))) = ep j1 ->
-  (forall j, f_nutation_longitude Rops (VTuple [ep j]) (VDict []) = ang (nut j)) ->
-  (forall j, f_true_obliquity Rops (VTuple [ep j]) (VDict []) = ang (obl j)) ->
-  (forall j, Sun_apparent_geocentric_position Rops (ep j) (VBool true) = VTuple [ang (sl j); ang (sb j); VFloat (sr j)]) ->
-  (forall a b e, f_ecliptical2equatorial Rops (ang a) (ang b) (ang e) = VTuple [ang (era a b e); ang (edec a b e)]) ->
+Lemma planet_full_Venus (lA bA rA l b r l0 b0 r0 nut1 obl1 sl1 sb1 sr1 j j1 : R) :
+  Venus_geometric_heliocentric_position Rops (ep j) (VBool false) = VTuple [ang lA; ang bA; VFloat rA] ->
+  Venus_geometric_heliocentric_position Rops (ep j1) (VBool false) = VTuple [ang l; ang b; VFloat r] ->
+  Earth_geometric_heliocentric_position Rops (ep j) (VBool false) = VTuple [ang l0; ang b0; VFloat r0] ->
+  Epoch___isub__ Rops (ep j) (VFloat (tau_of lA bA rA l0 b0 r0)) = ep j1 ->
+  f_nutation_longitude Rops (VTuple [ep j1]) (VDict []) = ang nut1 ->
+  f_true_obliquity Rops (VTuple [ep j1]) (VDict []) = ang obl1 ->
+  Sun_apparent_geocentric_position Rops (ep j1) (VBool true) = VTuple [ang sl1; ang sb1; VFloat sr1] ->
   -40 <= tcen j1 <= 40 ->
-  Rabs (betG (pl j1) (pb j1) (pr j1) (el j) (eb j) (er j)) <= 25 * (PI / 180) ->
-  Rabs (pb j1 * (PI / 180)) <= 25 * (PI / 180) ->
+  Rabs (betG l b r l0 b0 r0) <= 25 * (PI / 180) ->
+  Rabs (b * (PI / 180)) <= 25 * (PI / 180) ->
   Venus_geocentric_position Rops (ep j) =
-  VTuple [ang (era (LAMG (pl j1) (pb j1) (pr j1) (el j) (eb j) (er j) j1 (nut j1)) (BETG (pl j1) (pb j1) (pr j1) (el j) (eb j) (er j) j1) (obl j1));
-          ang (edec (LAMG (pl j1) (pb j1) (pr j1) (el j) (eb j) (er j) j1 (nut j1)) (BETG (pl j1) (pb j1) (pr j1) (el j) (eb j) (er j) j1) (obl j1));
-          ang (ELONG (pl j1) (pb j1) (pr j1) (el j) (eb j) (er j) j1 (nut j1) (sl j1))].
+  VTuple [ang (RAG l b r l0 b0 r0 j1 nut1 obl1); ang (DECG l b r l0 b0 r0 j1 nut1 obl1);
+          ang (ELONG l b r l0 b0 r0 j1 nut1 sl1)].
 Proof.
-  intros HP HE Hi Hn Ho Hs He Ht Hb HB.
-  apply (body_Venus pl pb pr el eb er nut obl sl sb sr era edec j j1); try assumption.
+  intros HPa HPb HE Hi Hn Ho Hs Ht Hb HB.
+  apply (body_Venus lA bA rA l b r l0 b0 r0 nut1 obl1 sl1 sb1 sr1 _ _ j j1); try assumption.
   - exact JDE2000_val.
+  - exact (C09_E_ecl.ecl2eq_closed _ _ _).
   - apply dl1G_small; assumption.
   - apply db1G_small; assumption.
   - apply dl2aG_small; assumption.
   - apply cosbet_nz; assumption.
 Qed.
 
-Lemma planet_full_Mars (pl pb pr el eb er nut obl sl sb sr : R -> R) (era edec : R -> R -> R -> R) (j j1 : R) :
-  (forall j, Mars_geometric_heliocentric_position Rops (ep j) (VBool false) = VTuple [ang (pl j); ang (pb j); VFloat (pr j)]) ->
-  (forall j, Earth_geometric_heliocentric_position Rops (ep j) (VBool false) = VTuple [ang (el j); ang (eb j); VFloat (er j)]) ->
-  Epoch___isub__ Rops (ep j) (VFloat (tau_of (pl j) (pb j) (pr j) (el j) (eb j) (er j))) = ep j1 ->
-  (forall j, f_nutation_longitude Rops (VTuple [ep j]) (VDict []) = ang (nut j)) ->
-  (forall j, f_true_obliquity Rops (VTuple [ep j]) (VDict []) = ang (obl j)) ->
-  (forall j, Sun_apparent_geocentric_position Rops (ep j) (VBool true) = VTuple [ang (sl j); ang (sb j); VFloat (sr j)]) ->
-  (forall a b e, f_ecliptical2equatorial Rops (ang a) (ang b) (ang e) = VTuple [ang (era a b e); ang (edec a b e)]) ->
+Lemma planet_full_Mars (lA bA rA l b r l0 b0 r0 nut1 obl1 sl1 sb1 sr1 j j1 : R) :
+  Mars_geometric_heliocentric_position Rops (ep j) (VBool false) = VTuple [ang lA; ang bA; VFloat rA] ->
+  Mars_geometric_heliocentric_position Rops (ep j1) (VBool false) = VTuple [ang l; ang b; VFloat r] ->
+  Earth_geometric_heliocentric_position Rops (ep j) (VBool false) = VTuple [ang l0; ang b0; VFloat r0] ->
+  Epoch___isub__ Rops (ep j) (VFloat (tau_of lA bA rA l0 b0 r0)) = ep j1 ->
+  f_nutation_longitude Rops (VTuple [ep j1]) (VDict []) = ang nut1 ->
+  f_true_obliquity Rops (VTuple [ep j1]) (VDict []) = ang obl1 ->
+  Sun_apparent_geocentric_position Rops (ep j1) (VBool true) = VTuple [ang sl1; ang sb1; VFloat sr1] ->
   -40 <= tcen j1 <= 40 ->
-  Rabs (betG (pl j1) (pb j1) (pr j1) (el j) (eb j) (er j)) <= 25 * (PI / 180) ->
-  Rabs (pb j1 * (PI / 180)) <= 25 * (PI / 180) ->
+  Rabs (betG l b r l0 b0 r0) <= 25 * (PI / 180) ->
+  Rabs (b * (PI / 180)) <= 25 * (PI / 180) ->
   Mars_geocentric_position Rops (ep j) =
-  VTuple [ang (era (LAMG (pl j1) (pb j1) (pr j1) (el j) (eb j) (er j) j1 (nut j1)) (BETG (pl j1) (pb j1) (pr j1) (el j) (eb j) (er j) j1) (obl j1));
-          ang (edec (LAMG (pl j1) (pb j1) (pr j1) (el j) (eb j) (er j) j1 (nut j1)) (BETG (pl j1) (pb j1) (pr j1) (el j) (eb j) (er j) j1) (obl j1));
-          ang (ELONG (pl j1) (pb j1) (pr j1) (el j) (eb j) (er j) j1 (nut j1) (sl j1))].
+  VTuple [ang (RAG l b r l0 b0 r0 j1 nut1 obl1); ang (DECG l b r l0 b0 r0 j1 nut1 obl1);
+          ang (ELONG l b r l0 b0 r0 j1 nut1 sl1)].
 Proof.
-  intros HP HE Hi Hn Ho Hs He Ht Hb HB.
-  apply (body_Mars pl pb pr el eb er nut obl sl sb sr era edec j j1); try assumption.
+  intros HPa HPb HE Hi Hn Ho Hs Ht Hb HB.
+  apply (body_Mars lA bA rA l b r l0 b0 r0 nut1 obl1 sl1 sb1 sr1 _ _ j j1); try assumption.
   - exact JDE2000_val.
+  - exact (C09_E_ecl.ecl2eq_closed _ _ _).
   - apply dl1G_small; assumption.
   - apply db1G_small; assumption.
   - apply dl2aG_small; assumption.
   - apply cosbet_nz; assumption.
 Qed.
 
-Lemma planet_full_Jupiter (pl pb pr el eb er nut obl sl sb sr : R -> R) (era edec : R -> R -> R -> R) (j j1 : R) :
-  (forall j, Jupiter_geometric_heliocentric_position Rops (ep j) (VBool false) = VTuple [ang (pl j); ang (pb j); VFloat (pr j)]) ->
-  (forall j, Earth_geometric_heliocentric_position Rops (ep j) (VBool false) = VTuple [ang (el j); ang (eb j); VFloat (er j)]) ->
-  Epoch___isub__ Rops (ep j) (VFloat (tau_of (pl j) (pb j) (pr j) (el j) (eb j) (er j))) = ep j1 ->
-  (forall j, f_nutation_longitude Rops (VTuple [ep j]) (VDict []) = ang (nut j)) ->
-  (forall j, f_true_obliquity Rops (VTuple [ep j]) (VDict []) = ang (obl j)) ->
-  (forall j, Sun_apparent_geocentric_position Rops (ep j) (VBool true) = VTuple [ang (sl j); ang (sb j); VFloat (sr j)]) ->
-  (forall a b e, f_ecliptical2equatorial Rops (ang a) (ang b) (ang e) = VTuple [ang (era a b e); ang (edec a b e)]) ->
+Lemma planet_full_Jupiter (lA bA rA l b r l0 b0 r0 nut1 obl1 sl1 sb1 sr1 j j1 : R) :
+  Jupiter_geometric_heliocentric_position Rops (ep j) (VBool false) = VTuple [ang lA; ang bA; VFloat rA] ->
+  Jupiter_geometric_heliocentric_position Rops (ep j1) (VBool false) = VTuple [ang l; ang b; VFloat r] ->
+  Earth_geometric_heliocentric_position Rops (ep j) (VBool false) = VTuple [ang l0; ang b0; VFloat r0] ->
+  Epoch___isub__ Rops (ep j) (VFloat (tau_of lA bA rA l0 b0 r0)) = ep j1 ->
+  f_nutation_longitude Rops (VTuple [ep j1]) (VDict []) = ang nut1 ->
+  f_true_obliquity Rops (VTuple [ep j1]) (VDict []) = ang obl1 ->
+  Sun_apparent_geocentric_position Rops (ep j1) (VBool true) = VTuple [ang sl1; ang sb1; VFloat sr1] ->
   -40 <= tcen j1 <= 40 ->
-  Rabs (betG (pl j1) (pb j1) (pr j1) (el j) (eb j) (er j)) <= 25 * (PI / 180) ->
-  Rabs (pb j1 * (PI / 180)) <= 25 * (PI / 180) ->
+  Rabs (betG l b r l0 b0 r0) <= 25 * (PI / 180) ->
+  Rabs (b * (PI / 180)) <= 25 * (PI / 180) ->
   Jupiter_geocentric_position Rops (ep j) =
-  VTuple [ang (era (LAMG (pl j1) (pb j1) (pr j1) (el j) (eb j) (er j) j1 (nut j1)) (BETG (pl j1) (pb j1) (pr j1) (el j) (eb j) (er j) j1) (obl j1));
-          ang (edec (LAMG (pl j1) (pb j1) (pr j1) (el j) (eb j) (er j) j1 (nut j1)) (BETG (pl j1) (pb j1) (pr j1) (el j) (eb j) (er j) j1) (obl j1));
-          ang (ELONG (pl j1) (pb j1) (pr j1) (el j) (eb j) (er j) j1 (nut j1) (sl j1))].
+  VTuple [ang (RAG l b r l0 b0 r0 j1 nut1 obl1); ang (DECG l b r l0 b0 r0 j1 nut1 obl1);
+          ang (ELONG l b r l0 b0 r0 j1 nut1 sl1)].
 Proof.
-  intros HP HE Hi Hn Ho Hs He Ht Hb HB.
-  apply (body_Jupiter pl pb pr el eb er nut obl sl sb sr era edec j j1); try assumption.
+  intros HPa HPb HE Hi Hn Ho Hs Ht Hb HB.
+  apply (body_Jupiter lA bA rA l b r l0 b0 r0 nut1 obl1 sl1 sb1 sr1 _ _ j j1); try assumption.
   - exact JDE2000_val.
+  - exact (C09_E_ecl.ecl2eq_closed _ _ _).
   - apply dl1G_small; assumption.
   - apply db1G_small; assumption.
   - apply dl2aG_small; assumption.
   - apply cosbet_nz; assumption.
 Qed.
 
-Lemma planet_full_Saturn (pl pb pr el eb er nut obl sl sb sr : R -> R) (era edec : R -> R -> R -> R) (j j1 : R) :
-  (forall j, Saturn_geometric_heliocentric_position Rops (ep j) (VBool false) = VTuple [ang (pl j); ang (pb j); VFloat (pr j)]) ->
-  (forall j, Earth_geometric_heliocentric_position Rops (ep j) (VBool false) = VTuple [ang (el j); ang (eb j); VFloat (er j)]) ->
-  Epoch___isub__ Rops (ep j) (VFloat (tau_of (pl j) (pb j) (pr j) (el j) (eb j) (er j))) = ep j1 ->
-  (forall j, f_nutation_longitude Rops (VTuple [ep j]) (VDict []) = ang (nut j)) ->
-  (forall j, f_true_obliquity Rops (VTuple [ep j]) (VDict []) = ang (obl j)) ->
-  (forall j, Sun_apparent_geocentric_position Rops (ep j) (VBool true) = VTuple [ang (sl j); ang (sb j); VFloat (sr j)]) ->
-  (forall a b e, f_ecliptical2equatorial Rops (ang a) (ang b) (ang e) = VTuple [ang (era a b e); ang (edec a b e)]) ->
+Lemma planet_full_Saturn (lA bA rA l b r l0 b0 r0 nut1 obl1 sl1 sb1 sr1 j j1 : R) :
+  Saturn_geometric_heliocentric_position Rops (ep j) (VBool false) = VTuple [ang lA; ang bA; VFloat rA] ->
+  Saturn_geometric_heliocentric_position Rops (ep j1) (VBool false) = VTuple [ang l; ang b; VFloat r] ->
+  Earth_geometric_heliocentric_position Rops (ep j) (VBool false) = VTuple [ang l0; ang b0; VFloat r0] ->
+  Epoch___isub__ Rops (ep j) (VFloat (tau_of lA bA rA l0 b0 r0)) = ep j1 ->
+  f_nutation_longitude Rops (VTuple [ep j1]) (VDict []) = ang nut1 ->
+  f_true_obliquity Rops (VTuple [ep j1]) (VDict []) = ang obl1 ->
+  Sun_apparent_geocentric_position Rops (ep j1) (VBool true) = VTuple [ang sl1; ang sb1; VFloat sr1] ->
   -40 <= tcen j1 <= 40 ->
-  Rabs (betG (pl j1) (pb j1) (pr j1) (el j) (eb j) (er j)) <= 25 * (PI / 180) ->
-  Rabs (pb j1 * (PI / 180)) <= 25 * (PI / 180) ->
+  Rabs (betG l b r l0 b0 r0) <= 25 * (PI / 180) ->
+  Rabs (b * (PI / 180)) <= 25 * (PI / 180) ->
   Saturn_geocentric_position Rops (ep j) =
-  VTuple [ang (era (LAMG (pl j1) (pb j1) (pr j1) (el j) (eb j) (er j) j1 (nut j1)) (BETG (pl j1) (pb j1) (pr j1) (el j) (eb j) (er j) j1) (obl j1));
-          ang (edec (LAMG (pl j1) (pb j1) (pr j1) (el j) (eb j) (er j) j1 (nut j1)) (BETG (pl j1) (pb j1) (pr j1) (el j) (eb j) (er j) j1) (obl j1));
-          ang (ELONG (pl j1) (pb j1) (pr j1) (el j) (eb j) (er j) j1 (nut j1) (sl j1))].
+  VTuple [ang (RAG l b r l0 b0 r0 j1 nut1 obl1); ang (DECG l b r l0 b0 r0 j1 nut1 obl1);
+          ang (ELONG l b r l0 b0 r0 j1 nut1 sl1)].
 Proof.
-  intros HP HE Hi Hn Ho Hs He Ht Hb HB.
-  apply (body_Saturn pl pb pr el eb er nut obl sl sb sr era edec j j1); try assumption.
+  intros HPa HPb HE Hi Hn Ho Hs Ht Hb HB.
+  apply (body_Saturn lA bA rA l b r l0 b0 r0 nut1 obl1 sl1 sb1 sr1 _ _ j j1); try assumption.
   - exact JDE2000_val.
+  - exact (C09_E_ecl.ecl2eq_closed _ _ _).
   - apply dl1G_small; assumption.
   - apply db1G_small; assumption.
   - apply dl2aG_small; assumption.
   - apply cosbet_nz; assumption.
 Qed.
 
-Lemma planet_full_Uranus (pl pb pr el eb er nut obl sl sb sr : R -> R) (era edec : R -> R -> R -> R) (j j1 : R) :
-  (forall j, Uranus_geometric_heliocentric_position Rops (ep j) (VBool false) = VTuple [ang (pl j); ang (pb j); VFloat (pr j)]) ->
-  (forall j, Earth_geometric_heliocentric_position Rops (ep j) (VBool false) = VTuple [ang (el j); ang (eb j); VFloat (er j)]) ->
-  Epoch___isub__ Rops (ep j) (VFloat (tau_of (pl j) (pb j) (pr j) (el j) (eb j) (er j))) = ep j1 ->
-  (forall j, f_nutation_longitude Rops (VTuple [ep j]) (VDict []) = ang (nut j)) ->
-  (forall j, f_true_obliquity Rops (VTuple [ep j]) (VDict []) = ang (obl j)) ->
-  (forall j, Sun_apparent_geocentric_position Rops (ep j) (VBool true) = VTuple [ang (sl j); ang (sb j); VFloat (sr j)]) ->
-  (forall a b e, f_ecliptical2equatorial Rops (ang a) (ang b) (ang e) = VTuple [ang (era a b e); ang (edec a b e)]) ->
+Lemma planet_full_Uranus (lA bA rA l b r l0 b0 r0 nut1 obl1 sl1 sb1 sr1 j j1 : R) :
+  Uranus_geometric_heliocentric_position Rops (ep j) (VBool false) = VTuple [ang lA; ang bA; VFloat rA] ->
+  Uranus_geometric_heliocentric_position Rops (ep j1) (VBool false) = VTuple [ang l; ang b; VFloat r] ->
+  Earth_geometric_heliocentric_position Rops (ep j) (VBool false) = VTuple [ang l0; ang b0; VFloat r0] ->
+  Epoch___isub__ Rops (ep j) (VFloat (tau_of lA bA rA l0 b0 r0)) = ep j1 ->
+  f_nutation_longitude Rops (VTuple [ep j1]) (VDict []) = ang nut1 ->
+  f_true_obliquity Rops (VTuple [ep j1]) (VDict []) = ang obl1 ->
+  Sun_apparent_geocentric_position Rops (ep j1) (VBool true) = VTuple [ang sl1; ang sb1; VFloat sr1] ->
   -40 <= tcen j1 <= 40 ->
-  Rabs (betG (pl j1) (pb j1) (pr j1) (el j) (eb j) (er j)) <= 25 * (PI / 180) ->
-  Rabs (pb j1 * (PI / 180)) <= 25 * (PI / 180) ->
+  Rabs (betG l b r l0 b0 r0) <= 25 * (PI / 180) ->
+  Rabs (b * (PI / 180)) <= 25 * (PI / 180) ->
   Uranus_geocentric_position Rops (ep j) =
-  VTuple [ang (era (LAMG (pl j1) (pb j1) (pr j1) (el j) (eb j) (er j) j1 (nut j1)) (BETG (pl j1) (pb j1) (pr j1) (el j) (eb j) (er j) j1) (obl j1));
-          ang (edec (LAMG (pl j1) (pb j1) (pr j1) (el j) (eb j) (er j) j1 (nut j1)) (BETG (pl j1) (pb j1) (pr j1) (el j) (eb j) (er j) j1) (obl j1));
-          ang (ELONG (pl j1) (pb j1) (pr j1) (el j) (eb j) (er j) j1 (nut j1) (sl j1))].
+  VTuple [ang (RAG l b r l0 b0 r0 j1 nut1 obl1); ang (DECG l b r l0 b0 r0 j1 nut1 obl1);
+          ang (ELONG l b r l0 b0 r0 j1 nut1 sl1)].
 Proof.
-  intros HP HE Hi Hn Ho Hs He Ht Hb HB.
-  apply (body_Uranus pl pb pr el eb er nut obl sl sb sr era edec j j1); try assumption.
+  intros HPa HPb HE Hi Hn Ho Hs Ht Hb HB.
+  apply (body_Uranus lA bA rA l b r l0 b0 r0 nut1 obl1 sl1 sb1 sr1 _ _ j j1); try assumption.
   - exact JDE2000_val.
+  - exact (C09_E_ecl.ecl2eq_closed _ _ _).
   - apply dl1G_small; assumption.
   - apply db1G_small; assumption.
   - apply dl2aG_small; assumption.
   - apply cosbet_nz; assumption.
 Qed.
 
-Lemma planet_full_Neptune (pl pb pr el eb er nut obl sl sb sr : R -> R) (era edec : R -> R -> R -> R) (j j1 : R) :
-  (forall j, Neptune_geometric_heliocentric_position Rops (ep j) (VBool false) = VTuple [ang (pl j); ang (pb j); VFloat (pr j)]) ->
-  (forall j, Earth_geometric_heliocentric_position Rops (ep j) (VBool false) = VTuple [ang (el j); ang (eb j); VFloat (er j)]) ->
-  Epoch___isub__ Rops (ep j) (VFloat (tau_of (pl j) (pb j) (pr j) (el j) (eb j) (er j))) = ep j1 ->
-  (forall j, f_nutation_longitude Rops (VTuple [ep j]) (VDict []) = ang (nut j)) ->
-  (forall j, f_true_obliquity Rops (VTuple [ep j]) (VDict []) = ang (obl j)) ->
-  (forall j, Sun_apparent_geocentric_position Rops (ep j) (VBool true) = VTuple [ang (sl j); ang (sb j); VFloat (sr j)]) ->
-  (forall a b e, f_ecliptical2equatorial Rops (ang a) (ang b) (ang e) = VTuple [ang (era a b e); ang (edec a b e)]) ->
+Lemma planet_full_Neptune (lA bA rA l b r l0 b0 r0 nut1 obl1 sl1 sb1 sr1 j j1 : R) :
+  Neptune_geometric_heliocentric_position Rops (ep j) (VBool false) = VTuple [ang lA; ang bA; VFloat rA] ->
+  Neptune_geometric_heliocentric_position Rops (ep j1) (VBool false) = VTuple [ang l; ang b; VFloat r] ->
+  Earth_geometric_heliocentric_position Rops (ep j) (VBool false) = VTuple [ang l0; ang b0; VFloat r0] ->
+  Epoch___isub__ Rops (ep j) (VFloat (tau_of lA bA rA l0 b0 r0)) = ep j1 ->
+  f_nutation_longitude Rops (VTuple [ep j1]) (VDict []) = ang nut1 ->
+  f_true_obliquity Rops (VTuple [ep j1]) (VDict []) = ang obl1 ->
+  Sun_apparent_geocentric_position Rops (ep j1) (VBool true) = VTuple [ang sl1; ang sb1; VFloat sr1] ->
   -40 <= tcen j1 <= 40 ->
-  Rabs (betG (pl j1) (pb j1) (pr j1) (el j) (eb j) (er j)) <= 25 * (PI / 180) ->
-  Rabs (pb j1 * (PI / 180)) <= 25 * (PI / 180) ->
+  Rabs (betG l b r l0 b0 r0) <= 25 * (PI / 180) ->
+  Rabs (b * (PI / 180)) <= 25 * (PI / 180) ->
   Neptune_geocentric_position Rops (ep j) =
-  VTuple [ang (era (LAMG (pl j1) (pb j1) (pr j1) (el j) (eb j) (er j) j1 (nut j1)) (BETG (pl j1) (pb j1) (pr j1) (el j) (eb j) (er j) j1) (obl j1));
-          ang (edec (LAMG (pl j1) (pb j1) (pr j1) (el j) (eb j) (er j) j1 (nut j1)) (BETG (pl j1) (pb j1) (pr j1) (el j) (eb j) (er j) j1) (obl j1));
-          ang (ELONG (pl j1) (pb j1) (pr j1) (el j) (eb j) (er j) j1 (nut j1) (sl j1))].
+  VTuple [ang (RAG l b r l0 b0 r0 j1 nut1 obl1); ang (DECG l b r l0 b0 r0 j1 nut1 obl1);
+          ang (ELONG l b r l0 b0 r0 j1 nut1 sl1)].
 Proof.
-  intros HP HE Hi Hn Ho Hs He Ht Hb HB.
-  apply (body_Neptune pl pb pr el eb er nut obl sl sb sr era edec j j1); try assumption.
+  intros HPa HPb HE Hi Hn Ho Hs Ht Hb HB.
+  apply (body_Neptune lA bA rA l b r l0 b0 r0 nut1 obl1 sl1 sb1 sr1 _ _ j j1); try assumption.
   - exact JDE2000_val.
+  - exact (C09_E_ecl.ecl2eq_closed _ _ _).
   - apply dl1G_small; assumption.
   - apply db1G_small; assumption.
   - apply dl2aG_small; assumption.
